@@ -17,6 +17,47 @@ CHECKS = {
             "answer is handled/ignored, returns with state and cursor unchanged and no entry/exit/init call. "
             "The model is tied to hsm.py by a full call-trace correspondence on generated charts.",
             "§8 C02", NOTE_L1),
+    "C01": ("Lean 4 refinement proof (faithful dispatch/trans_ model refines UML spec) + call-trace correspondence",
+            "Theorem C01_dispatch_refines_spec: for every well-formed chart (any tree, any depth, any initial "
+            "transitions into descendants), every current state and event, the faithful model of dispatch "
+            "(entry-path buffer, max_index, topology cases a-g, init drill-down) succeeds and its action "
+            "projection equals the UML spec's list exactly (offers, exits up to the boundary state, entries "
+            "below it, initial-transition entries) and rests in the spec's state; lifted to event lists "
+            "(C01_run). The proof uses the generated switch resync=true; C01_witness_unfixed proves the "
+            "pre-repair algorithm wrong on a 7-deep chain. The model is tied to hsm.py by comparing every "
+            "handler call on generated charts (three hosts); thorough adds all trees <=5 states exhaustively.",
+            "§8 C01", NOTE_L1),
+    "C03": ("Lean 4 refinement proof of start_at + call-trace correspondence",
+            "Theorem C03_start: for every well-formed chart and start state the faithful model of init() "
+            "enters the enclosing states outside-in, follows initial transitions, logs exactly the spec's "
+            "actions, never exits, and rests in the last init target.", "§8 C03", NOTE_L1),
+    "C24": ("Lean 4 proof: checked spec = none implies raise, some implies exact refinement, never diverges",
+            "Theorems C24_dispatch_checked / C24_start_checked on arbitrary (possibly malformed) charts: where "
+            "the checked UML spec says the chart is malformed at the point reached (init target not strictly "
+            "inside its state, handler returning None) the model raises; elsewhere it does exactly what the "
+            "spec says; it never diverges (C24_dispatch_no_diverge). Uses generated switches drillGuard and "
+            "initGuard (the two repairs). C24_start_checked needs 0 < depth or no init at the start state "
+            "(fuel artefact, proved necessary in the model by start_depth0_diverges).", "§8 C24", NOTE_L1),
+    "C14": ("Lean 4 invariant proofs over arbitrary operation lists + per-operation correspondence",
+            "Theorems over all queued charts, handler effect tables and client operation lists: next_rtc "
+            "dispatches exactly the queue head, posts land at back/front (also from handlers, applied in "
+            "call order), unique event objects are dispatched at most once (inductive invariant Inv), "
+            "complete_circuit returns only with an empty queue, and each operation refines an abstract deque. "
+            "Tie: queue, defer queue, dispatched list and call log compared after every operation.",
+            "§8 C14", NOTE_L1 + " collections.deque(maxlen) semantics are modelled, not verified."),
+    "C15": ("Lean 4 invariant proofs + per-operation correspondence",
+            "Theorems: recall returns the oldest deferred event and moves it to the back of the queue, returns "
+            "none and changes nothing when nothing is deferred; deferred events are not dispatched without a "
+            "recall (any operation list, charts whose handlers do not recall); deferral order is kept. The "
+            "order statements need the explicit hypothesis that the defer queue (a bounded deque) does not "
+            "overflow; C15_witness_defer_overflow proves it necessary.", "§8 C15",
+            NOTE_L1 + " collections.deque(maxlen) semantics are modelled, not verified."),
+    "C16": ("Lean 4 invariant proofs (bounds, placement on full queues) + per-operation correspondence",
+            "Theorems: after any operation list queue and defer queue hold at most cap entries (also at every "
+            "point during a step; instantiated for the generated QUEUE_SIZE), posting is total (never blocks), "
+            "on a full queue a fifo post keeps the new event last and a lifo post keeps it first. The "
+            "LockingDeque half of the property (active objects) is decided by the concurrency layer.",
+            "§8 C16", NOTE_L1 + " collections.deque(maxlen) semantics are modelled, not verified."),
     "C22": ("Lean 4 proof by induction on the active path + call-trace correspondence + purity replay",
             "Theorems for every current state and argument: the faithful model of is_in returns true iff the "
             "argument is a suffix of (= is or encloses) the current path; child_state returns the spec's child, "
